@@ -86,7 +86,7 @@ Section Mon.
   Definition vst (v : tview) (n : nat) : ns := nth n (v_nodes (tv_view v)) ns0.
   Definition cf (v : tview) (n : nat) : bool * bool := nth n (tv_cf v) (false, false).
   Definition under_alarm (n : nat) : bool :=
-    existsb (fun a => match n_kind (nd p a) with KAlarm => true | _ => false end) (ancestors p n).
+    existsb (fun a => match n_kind (nd p a) with KAlarm | KMacro _ => true | _ => false end) (ancestors p n).
   Definition is_alarm (n : nat) : bool := match n_kind (nd p n) with KAlarm => true | _ => false end.
   Definition watches : list nat :=
     filter (fun n => match n_kind (nd p n) with KWatch | KAlarm => negb (under_alarm n) | _ => false end) (seq 0 (length p)).
